@@ -6,7 +6,10 @@ import (
 	"os"
 	"reflect"
 	"runtime"
+	"sort"
+	"strconv"
 	"strings"
+	"sync"
 	"time"
 
 	yae "github.com/goghcrow/yae"
@@ -51,6 +54,7 @@ type obs struct {
 	Stdout string
 	Debug  string
 	held   *val.Val // the returned value itself: must still render the same when the history is over
+	Law    string   // a violated value-level law (numLaw), "" if none
 }
 
 func (o obs) String() string {
@@ -112,6 +116,19 @@ var c13Extra = []Prog{
 	{"len([1: 1, 1: 2, 2: 3]) + get([1: 1, 1: 2], 1, 0)", "none", false, false},
 	{"[m == m, mi == mi, mo == mo, [m, m] == [m, m]]", "map", false, false},
 	{"[isset(mo, \"u\"), isset(mo, \"zz\"), get(mo, \"v\", o).id]", "struct", false, false},
+	// number-text law programs (see numLaw): near-equal but distinct numbers, alone and as map keys
+	{"{numlaw_n: 0.1 + 0.2, numlaw_s: string(0.1 + 0.2)}", "none", false, false},
+	{"{numlaw_n: 0.3, numlaw_s: string(0.3)}", "none", false, false},
+	{"{numlaw_n: 0.1 + 0.7, numlaw_s: string(0.1 + 0.7)}", "none", false, false},
+	{"{numlaw_n: 0.8, numlaw_s: string(0.8)}", "none", false, false},
+	{"{numlaw_n: 0.2 + 0.4, numlaw_k: string([0.2 + 0.4: 1])}", "none", false, false},
+	{"{numlaw_n: 0.6, numlaw_k: string([0.6: 1])}", "none", false, false},
+	{"{numlaw_n: x / 3, numlaw_s: string(x / 3)}", "map", false, false},
+	{"{numlaw_n: n / 7, numlaw_s: string(n / 7), numlaw_k: string([n / 7: 1])}", "struct", false, false},
+	{"{numlaw_n: 1.1 * 3, numlaw_s: string(1.1 * 3)}", "none", false, false},
+	{"{numlaw_n: 3.3, numlaw_k: string([3.3: 1])}", "none", false, false},
+	{"{numlaw_n: 1e15 + 0.3, numlaw_s: string(1e15 + 0.3)}", "none", false, false},
+	{"len([0.6: \"short\", 0.2 + 0.4: \"noisy\", 0.75: \"other\"]) + len([0.3: 1, 0.1 + 0.2: 2])", "none", false, false},
 	{"n + 1", "hetero1", false, false},
 	{"len(hm) + n", "hetero1", false, false},
 	{"hm[\"a\"][0] + n", "hetero1", false, false},
@@ -197,6 +214,60 @@ func valObs(o *obs, v *val.Val, err error) {
 	o.Value = render(v)
 	o.Text = v.String()
 	o.held = v
+	o.Law = numLaw(v)
+}
+
+// numLaw: the text of a number depends on that number only, so it must read back as exactly
+// that number whatever else the process has converted before.  Checked on results of the
+// form {numlaw_n: E, numlaw_s: string(E), numlaw_k: string([E: 1])}; "" when the law holds
+// or does not apply.  (A history-vs-pristine comparison cannot see a process-wide memo of
+// number texts: the pristine evaluation lives in the same process.)
+func numLaw(v *val.Val) (bad string) {
+	defer func() {
+		if recover() != nil {
+			bad = ""
+		}
+	}()
+	if v == nil || v.Type.Kind != types.KObj {
+		return ""
+	}
+	o := v.Obj()
+	fs := o.Type.Obj().Fields
+	var n float64
+	has := false
+	texts := map[string]string{}
+	for i, f := range fs {
+		if i >= len(o.V) {
+			return ""
+		}
+		fv := o.V[i]
+		if fv == nil || fv.Type == nil {
+			return ""
+		}
+		switch {
+		case f.Name == "numlaw_n" && fv.Type.Kind == types.KNum:
+			n, has = fv.Num().V, true
+		case f.Name == "numlaw_s" && fv.Type.Kind == types.KStr:
+			texts["string(E)"] = fv.Str().V
+		case f.Name == "numlaw_k" && fv.Type.Kind == types.KStr:
+			t := fv.Str().V
+			if j := strings.Index(t, ":"); strings.HasPrefix(t, "[") && j > 0 {
+				texts["the key of string([E: 1])"] = strings.TrimSpace(t[1:j])
+			} else {
+				return fmt.Sprintf("string([E: 1]) = %q is not a one-entry map text", t)
+			}
+		}
+	}
+	if !has {
+		return ""
+	}
+	for what, t := range texts {
+		back, err := strconv.ParseFloat(t, 64)
+		if err != nil || back != n {
+			return fmt.Sprintf("%s = %q does not read back as the number itself (%s)", what, t, strconv.FormatFloat(n, 'g', 17, 64))
+		}
+	}
+	return ""
 }
 
 type pkey struct {
@@ -275,6 +346,7 @@ func (h *Hist13) keys() []pkey {
 
 type hist13Result struct {
 	RawEdits  int
+	RawRetypes int
 	Reentries int
 	GCBefore  int
 	Viol     *Violation
@@ -285,6 +357,7 @@ type hist13Result struct {
 
 func runHist13(h *Hist13, x *evalCtx) hist13Result {
 	var res hist13Result
+	nameClass("") // computed outside the simulated run
 	keys := h.keys()
 	table := func() map[pkey]obs {
 		t := map[pkey]obs{}
@@ -312,6 +385,14 @@ func runHist13(h *Hist13, x *evalCtx) hist13Result {
 		rawT := map[string]*types.Env{}
 		rawV := map[string]*val.Env{}
 		rawHas := map[string]string{}
+		rawTHas := map[string]string{}
+		rawTGen := map[string]int{}
+		type rawUse struct {
+			class string
+			gen   int
+		}
+		compRaw := map[int]rawUse{}
+		lastRawClass := ""
 		// "inplace": ONE host object per typing class whose contents are overwritten before
 		// every use (what a host does with a long-lived request struct / map): anything
 		// cached by the identity of the host object sees stale contents
@@ -367,16 +448,37 @@ func runHist13(h *Hist13, x *evalCtx) hist13Result {
 				return v, deepSnapshot(v), v
 			case "raw":
 				if forCompile {
-					e, ok := rawT[name]
+					// one raw *types.Env per set of NAMES: asked for another typing of the same
+					// names, the object is retyped in place through its own setter (a host that
+					// keeps one type environment and re-declares its variables).  Callables
+					// compiled against it before the edit are dropped: the library checks an
+					// invocation against the live object, so using them afterwards is the host's
+					// own mistake, not an observation about the library.
+					class := nameClass(name)
+					lastRawClass = class
+					e, ok := rawT[class]
 					if !ok {
 						var err error
 						e, err = conv.TypeEnvOf(envMakers[name]())
 						if err != nil {
+							lastRawClass = ""
 							return envMakers[name](), "", nil
 						}
-						rawT[name] = e
+						rawT[class] = e
+						rawTHas[class] = name
 					} else {
 						res.Reused++
+						if rawTHas[class] != name {
+							if want, err := conv.TypeEnvOf(envMakers[name]()); err == nil {
+								want.ForEach(func(k string, ty *types.Type) { e.Put(k, ty) })
+								rawTHas[class] = name
+								rawTGen[class]++
+								res.RawRetypes++
+							} else {
+								lastRawClass = ""
+								return envMakers[name](), "", nil
+							}
+						}
 					}
 					return e, "", nil
 				}
@@ -446,7 +548,11 @@ func runHist13(h *Hist13, x *evalCtx) hist13Result {
 			}
 			switch op.K {
 			case "compile":
+				lastRawClass = ""
 				env, snap, host := carrier(op.Carrier, op.Prog.Env, true)
+				if lastRawClass != "" {
+					compRaw[i] = rawUse{lastRawClass, rawTGen[lastRawClass]}
+				}
 				got[i] = x.observe(op.StdoutFail, func(o *obs) {
 					c, err := engines[op.Eng].Compile(op.Prog.Src, env)
 					if err != nil {
@@ -461,6 +567,11 @@ func runHist13(h *Hist13, x *evalCtx) hist13Result {
 				}
 			case "invoke":
 				c := calls[op.C]
+				if cr, ok := compRaw[op.C]; ok && rawTGen[cr.class] != cr.gen {
+					// its raw type environment has been retyped since: not used any more
+					got[i] = obs{Class: "dropped"}
+					continue
+				}
 				if c == nil {
 					got[i] = obs{Class: "skip"}
 					continue
@@ -598,11 +709,21 @@ func runHist13(h *Hist13, x *evalCtx) hist13Result {
 			return res
 		}
 		g := got[i]
+		if g.Class == "dropped" {
+			continue
+		}
 		if asp := diffObs(a, g, op.StdoutFail); asp != "" {
 			res.Viol = &Violation{"history", "c13:" + asp + ":" + op.K + ":" + op.Carrier,
 				fmt.Sprintf("op %d (%s %q, carrier=%s, env=%s, engine=%+v): %s differs from the pristine evaluation\n pristine: %s\n history : %s",
 					i, op.K, src, op.Carrier, k.cenv+"/"+k.ienv, k.spec, asp, a, g)}
 			return res
+		}
+		for _, o := range []obs{a, g} {
+			if o.Law != "" {
+				res.Viol = &Violation{"law", "c13:number-text-law:" + op.K,
+					fmt.Sprintf("op %d (%s %q): %s", i, op.K, src, o.Law)}
+				return res
+			}
 		}
 		if hostChanged[i] != "" {
 			res.Viol = &Violation{"history", "c13:host-modified:" + op.K, fmt.Sprintf("op %d (%s %q): %s", i, op.K, src, hostChanged[i])}
@@ -717,10 +838,16 @@ func genHist13(r *rng) *Hist13 {
 				h.Ops = append(h.Ops, H13Op{K: "bulkinvoke", Eng: e, Prog: &q1, N: 10 + r.intn(20), GCBefore: true})
 			}
 		}
+		// ... sometimes all against ONE raw type environment that is retyped in place
+		// between the rounds (stale caches keyed by the identity of the environment)
+		cc := "fresh"
+		if r.chance(0.35) {
+			cc = "raw"
+		}
 		for j := 0; j < rounds; j++ {
 			q := p
 			q.Env = genericEnvs[r.intn(4)]
-			h.Ops = append(h.Ops, H13Op{K: "compile", Eng: e, Prog: &q, Carrier: "fresh", GCBefore: r.chance(0.7)})
+			h.Ops = append(h.Ops, H13Op{K: "compile", Eng: e, Prog: &q, Carrier: cc, GCBefore: r.chance(0.7)})
 			h.Ops = append(h.Ops, H13Op{K: "invoke", C: len(h.Ops) - 1, Env: q.Env, Carrier: carriers[r.intn(4)]})
 		}
 	}
@@ -754,6 +881,33 @@ func genHist13(r *rng) *Hist13 {
 }
 
 // shapeClass: environments whose value trees have the same shape (lengths, key sets, types).
+// nameClass: environments binding exactly the same names (whatever their types) share a class.
+var (
+	nameClassOnce sync.Once
+	nameClasses   map[string]string
+)
+
+func nameClass(name string) string {
+	nameClassOnce.Do(func() {
+		nameClasses = map[string]string{}
+		for n, mk := range envMakers {
+			te, err := conv.TypeEnvOf(mk())
+			if err != nil {
+				nameClasses[n] = "only:" + n
+				continue
+			}
+			var ks []string
+			te.ForEach(func(k string, _ *types.Type) { ks = append(ks, k) })
+			sort.Strings(ks)
+			nameClasses[n] = strings.Join(ks, ",")
+		}
+	})
+	if c, ok := nameClasses[name]; ok {
+		return c
+	}
+	return "only:" + name
+}
+
 func shapeClass(name string) string {
 	switch name {
 	case "map", "struct", "map3", "struct3":
@@ -904,6 +1058,7 @@ func (c13) Batch(seed uint64, wid, batch, count int, deadline time.Time, emit fu
 		c["fault_env_reuse"] += int64(res.Reused)
 		c["fault_reentrant_invocations"] += int64(res.Reentries)
 		c["fault_raw_env_edited_in_place"] += int64(res.RawEdits)
+		c["fault_raw_type_env_retyped_in_place"] += int64(res.RawRetypes)
 		c["sim_time_covered_s"] += abs64(res.Sim.ClockEnd - h.Sim.ClockBase)
 		for _, op := range h.Ops {
 			if op.StdoutFail {
@@ -924,7 +1079,7 @@ func (c13) Batch(seed uint64, wid, batch, count int, deadline time.Time, emit fu
 			cs, _ := json.Marshal(c13Case{h})
 			rf := &ReplayFile{Case: cs, TZ: tzEnv()}
 			if i > 0 {
-				rf.Prefix = &Prefix{seed, wid, batch, i}
+				rf.Prefix = &Prefix{seed, wid, batch, i, nWorkers()}
 			}
 			emit(&Record{T: "viol", Viol: res.Viol, Replay: rf})
 		}
